@@ -102,6 +102,27 @@ def run (ctx):
     leaked = [n for n in floods + inst if n in r]
     ctx.ob('R-DOM', h, "%s frames are neither flooded nor given a flow (non-transparent mode)" % what, not leaked and any(d in r for d in drops),
            "only drop() reachable" if not leaked else "`%s` reachable for a %s frame" % (leaked[0].text(40), what), h, 'D2')
+  # what `is_bridge_filtered` means: exactly 01:80:c2:00:00:00 .. 0f (IEEE 802.1D reserved block) - evaluated on sample addresses
+  ea = repo.cls('lib.addresses', 'EthAddr')
+  ibf = ea.methods.get('isBridgeFiltered') if ea is not None else None
+  if ibf is not None:
+    ctx.analysed(ibf); bg = q.cfg_of(ibf); amod = ea.module
+    wrong = []; unknown = 0; n_s = 0
+    samples = [(bytes([1, 0x80, 0xc2, 0, 0, x]), x <= 0x0f) for x in (0, 1, 2, 0x0e, 0x0f, 0x10, 0x20, 0xff)] + \
+              [(bytes([1, 0x80, 0xc2, 0, 1, 0]), False), (bytes([1, 0x80, 0xc3, 0, 0, 0]), False), (bytes([0, 0x80, 0xc2, 0, 0, 0]), False), (b'\xff' * 6, False), (bytes([1, 0, 0x5e, 0, 0, 1]), False)]
+    for val, want in samples:
+      res = set()
+      for p_, e_ in q.paths_under(repo, amod, bg, q.Env({'self._value': val}), bg.entry, [n for n in bg.nodes if n.kind == 'return'], ea, limit=30):
+        try: res.add(bool(q.eval_env2(repo, amod, p_[-1].ast.value, e_, ea)))
+        except Exception: res.add('?')
+      n_s += 1
+      if len(res) != 1 or '?' in res: unknown += 1
+      elif res != {want}: wrong.append((':'.join('%02x' % b for b in val), want))
+    if unknown:
+      ctx.undecided('R-AGREE', ibf, "bridge-filtered means 01:80:c2:00:00:00-0f", "not evaluable for %d of %d sample addresses" % (unknown, n_s), ibf, 'D2')
+    else:
+      ctx.ob('R-AGREE', ibf, "bridge-filtered means 01:80:c2:00:00:00-0f", not wrong, "%d sample addresses classified as IEEE 802.1D says" % n_s if not wrong else
+             "%s is classified as %sbridge-filtered: %s" % (wrong[0][0], "not " if wrong[0][1] else "", "such link-local frames are flooded / get flows installed by the learning switch" if wrong[0][1] else "ordinary traffic to it is dropped"), ibf, 'D2')
   r = q.reach_under(repo, mod, g, q.Env({'self.transparent': False, 'packet.dst.is_multicast': True}, [(lldp, False), (bf, False)]), ls)
   ctx.ob('R-DOM', h, "multicast / broadcast destinations are flooded", any(n in r for n in floods) and not any(n in r for n in inst), "flood reachable, install unreachable", h, 'D2')
   r = q.reach_under(repo, mod, g, q.Env({'self.transparent': False, 'packet.dst.is_multicast': False, 'packet.dst not in self.macToPort': True, 'packet.dst in self.macToPort': False}, [(lldp, False), (bf, False)]), ls)
@@ -232,6 +253,35 @@ def run (ctx):
       fs = q.fact_strs(gg, q.enclosing_stmt_node(gg, raw[0]))
       good = 'self.buffer_id is None' in fs or (dv + '.buffer_id is None') in fs
       ctx.ob('R-DOM', pout.qual + '.data', "raw bytes are copied only when the packet-in is unbuffered", good, "under buffer_id is None" if good else "the packet-in's bytes are copied although it is buffered (facts %s): the switch would emit the data instead of the buffered packet" % fs, (pout.module, d), 'D4')
+    # a buffered packet-in carries only the first miss_send_len bytes: what is_complete says for it, put into the two consumers
+    # (packet_out.data = <packet-in>, flow_mod.pack with data), must still let the buffer id through
+    pin_c = repo.cls(LOF, 'ofp_packet_in')
+    ic = [f_ for f_ in pin_c.node.body if isinstance(f_, ast.FunctionDef) and f_.name == 'is_complete'] if pin_c is not None else []
+    comp_vals = set()
+    if ic:
+      ig = q.cfg_of(ic[0])
+      envc = q.Env({'self.buffer_id': 7, 'self.total_len': 100, 'len(self.data)': 10, 'len(self._data)': 10})
+      for p_, e_ in q.paths_under(repo, repo.mod(LOF), ig, envc, ig.entry, [n for n in ig.nodes if n.kind == 'return'], pin_c, limit=30):
+        try: comp_vals.add(bool(q.eval_env2(repo, repo.mod(LOF), p_[-1].ast.value, e_, pin_c)))
+        except Exception: comp_vals.add('?')
+    if not comp_vals or '?' in comp_vals:
+      ctx.undecided('R-AGREE', pout.qual + '.data', "a truncated but buffered packet-in can be resent", "ofp_packet_in.is_complete not evaluable", (pout.module, d), 'D4')
+    else:
+      for cv in sorted(comp_vals):
+        ms_ = [((lambda e: isinstance(e, ast.Call) and call_name(e) == 'isinstance' and len(e.args) == 2 and 'ofp_packet_in' in norm(e.args[1])), True),
+               ((lambda e: isinstance(e, ast.Call) and call_name(e) == 'isinstance'), False),
+               ((lambda e: isinstance(e, ast.Call) and call_name(e) in ('assert_type', '_assert')), True)]
+        env_ = q.Env({dv: '<packet-in>', dv + '.buffer_id': 7, dv + '.is_complete': cv, dv + '.in_port': 3}, ms_)
+        done_ = q.paths_under(repo, pout.module, gg, env_, gg.entry, [gg.exit], pout, limit=30)
+        okp = [1 for p_, e_ in done_ if e_.exact.get('self.buffer_id') == 7]
+        ctx.ob('R-AGREE', pout.qual + '.data', "a truncated but buffered packet-in can be resent (is_complete = %s)" % cv, bool(okp),
+               "setter completes with buffer_id 7" if okp else
+               "for a packet-in with buffer_id 7 that holds only part of the frame is_complete is %s, and with that `packet_out.data = <packet-in>` %s: the learning switch's handler fails on every "
+               "buffered packet-in, the frame is not forwarded and the switch buffer is never released" % (cv, "does not finish normally (assertion)" if not done_ else "does not take over the buffer id"), (pout.module, d), 'D4')
+        if slot:
+          sb = slot_values(scenario(None, (77, cv)))
+          ctx.ob('R-AGREE', pk, "a flow-mod given a buffered, truncated packet-in reuses its buffer id (is_complete = %s)" % cv, sb[slot[0]] == {77}, "slot 77" if sb[slot[0]] == {77} else
+                 "with data = packet-in(buffer_id=77, is_complete=%s) the buffer-id slot carries %s: buffer 77 is never released" % (cv, sorted(map(str, sb[slot[0]]))), pk, 'D4')
   else:
     ctx.undecided('R-AGREE', pout.qual, "packet_out.data setter", "setter not found", pout, 'D4')
   for nm, node in defs.undefined_names(repo, h):
